@@ -33,9 +33,11 @@ def findings_tables():
     for f in sorted(known, key=lambda f: (f.get("property", ""), f.get("signature", ""))):
         what = re.sub(r"\s+", " ", f.get("what", "")).replace("|", "/")[:300]
         rows.append(f"| {f.get('property')} | `{f.get('signature')}` | {what} |")
-    rows += ["", "Fixed (each has a `fix:` commit in /repo and a regression in `corpus/`):", "", "| property | signature | commit |", "|---|---|---|"]
+    rows += ["", "Fixed (each has a `fix:` commit in /repo and a regression in `corpus/`):", "", "| property | signature | commit | what failed |", "|---|---|---|---|"]
     for f in sorted(fixed, key=lambda f: (f.get("property", ""), f.get("signature", ""))):
-        rows.append(f"| {f.get('property')} | `{f.get('signature')}` | {f.get('commit', '')} |")
+        what = re.sub(r"\s+", " ", f.get("what", "")).replace("|", "/")
+        what = re.sub(r"^fixed: property=\S+ \S+ ", "", what)[:220]
+        rows.append(f"| {f.get('property')} | `{f.get('signature')}` | {f.get('commit', '')} | {what} |")
     return "\n".join(rows)
 
 
